@@ -65,7 +65,7 @@ def rs_job(focus, profiles=("release",)):
 
 PROPS.update({
     "C03": {
-        "level_text": "Fault enumeration driven by the specification's block structure: for every size and block, error patterns of weight 1..floor(k/2) in the data region, the EC region, split, first/last codeword of each region, bursts, all blocks at once; TLC recomputes the per-block distance with its own interleaving and requires success with exactly the sent word.",
+        "level_text": "Fault enumeration driven by the specification's block structure: for every size and block, error patterns of weight 1..floor(k/2) in the data region, the EC region, split, first/last codeword of each region, bursts, all blocks at once, and patterns whose error values make the first m syndromes vanish (the decoder's special paths); TLC recomputes the per-block distance with its own interleaving and requires success with exactly the sent word.",
         "level_note": "Trusts: GF256.tla/ReedSolomon.tla (self-checked by ASSUMEs); premise 'sent is a codeword' is evaluated by TLC, not assumed.",
         "jobs": [rs_job("C03")],
         "rule": "one case = (size, random data vector, error pattern within capacity) -> encode_error, corrupt, decode_error; 12 pattern "
@@ -109,7 +109,7 @@ PROPS.update({
         "exhaustive_quick": True, "exhaustive_thorough": True,
     },
     "C08": {
-        "level_text": "Trace_Geom: forward - every pixel of the rendering of 2-4 codeword vectors per size is compared with Render.tla (finder, clock, alignment bars, data, corner). Converse - deviation experiments: every single finder/clock/alignment/corner module of every size and (small sizes, thorough: all sizes) every data module flipped, plus random multi-module deviations; TLC decides by the kind of the flipped modules whether the parser must reject (Alignment/Padding) or accept with exactly the toggled codeword bits. Shape errors (ZeroWidth/DataSize/SymbolSize) in the shapes family.",
+        "level_text": "Trace_Geom: forward - every pixel of the rendering of 2-4 codeword vectors per size is compared with Render.tla (finder, clock, alignment bars, data, corner). Converse - deviation experiments: every single finder/clock/alignment/corner module of every size and (small sizes, thorough: all sizes) every data module flipped, plus random multi-module deviations, whole finder lines inverted, stray pixels / rows appended or removed; whatever is accepted must re-render to the same array; TLC decides by the kind of the flipped modules whether the parser must reject (Alignment/Padding) or accept with exactly the toggled codeword bits. Shape errors (ZeroWidth/DataSize/SymbolSize) in the shapes family.",
         "level_note": "Trusts: Render.tla geometry (validated forward against the implementation on all 48 sizes and by MC_Render on small sizes).",
         "jobs": [GEOM_JOB, {"family": "shapes", "spec": "Trace_Shapes"}],
         "rule": "one experiment = (size, base codewords, set of flipped modules) -> try_from_bits / decode; non-trivial = experiment with at least one flipped module; distinct = (case, event index)",
@@ -130,7 +130,7 @@ PROPS["C12"] = {
 }
 
 PROPS["C04"] = {
-    "level_text": "Specification -> implementation: TLC enumerates EVERY behaviour of the strict reference encoder Writer.tla (all legal segmentations into mode runs, all end-of-symbol forms, Base256 with explicit and to-end-of-symbol length, EDIFACT unlatch at each position, macro/FNC1 headers, pads) for all inputs over a 12-byte class alphabet up to length 2 (thorough: 3) at capacities 3..16, and random behaviours (-simulate) for inputs up to 700 bytes; each printed stream is fed to decode_data (and decode_str when printable Latin-1) and must return the spec's input. MC_Codec checks Writer x Stream (reader) = identity beforehand.",
+    "level_text": "Specification -> implementation: TLC enumerates EVERY behaviour of the strict reference encoder Writer.tla (all legal segmentations into mode runs, all end-of-symbol forms, Base256 with explicit and to-end-of-symbol length, EDIFACT unlatch at each position, macro/FNC1 headers, pads) for all inputs over a 12-byte class alphabet up to length 2 (thorough: 3) at capacities 3..16, and random behaviours (-simulate, seeded) for short inputs over a 26-byte alphabet and for inputs up to 700 bytes; each printed stream is fed to decode_data (and decode_str when printable Latin-1) and must return the spec's input. MC_Codec checks Writer x Stream (reader) = identity beforehand.",
     "level_note": "Trusts: Writer.tla generates only conformant streams (cross-checked against the independent reader Stream.tla by MC_Codec). The verdict is an equality computed by the harness; the expected value comes from the specification.",
     "technique": "TLA+ Writer specification; TLC-generated behaviours (exhaustive + simulation) replayed into the implementation's decoder",
     "mc": ["MC_Codec"],
@@ -155,7 +155,7 @@ PROPS["C18"] = {
     "assumptions": [],
 }
 PROPS["C19"] = {
-    "level_text": "Design: MC_Planner model-checks the frontier machine of Planner.tla (steps bounded by a constant per iteration, |alive| <= |modes|^2). Implementation: Trace_Planner validates the hook's per-iteration events against that machine with 6 modes: every live plan steps exactly once, <= 1 switch call per plan, <= 5 spawned per call, no duplicate (start,current) pair after pruning, <= 36 alive, cumulative candidate steps <= 216 (it+1) + 6; wall time per call <= 10 s and a 20 s watchdog; a step budget in the hook stops exponential planners.",
+    "level_text": "Design: MC_Planner model-checks the frontier machine of Planner.tla (steps bounded by a constant per iteration, |alive| <= |modes|^2). Implementation: Trace_Planner validates the hook's per-iteration events against that machine with 6 modes: every live plan steps exactly once, <= 1 switch call per plan, <= 5 spawned per call, no duplicate (start,current) pair after pruning, <= 36 alive, cumulative candidate steps <= 216 (it+1) + 6; the summed planner work of one encode_data() call (all optimize() invocations) obeys the same bound; wall time per call <= 10 s and a 20 s watchdog; a step budget in the hook stops exponential planners.",
     "level_note": "Trusts: the hook counts (cfg datamatrix_verif) are taken inside optimize() at the pruning point.",
     "mc": ["MC_Planner"],
     "jobs": [{"family": "plan", "spec": "Trace_Planner", "focus": "C19", "coverage": True}],
